@@ -4,7 +4,7 @@ import os, sys
 sys.path.insert(0, os.path.join(os.path.dirname(os.path.abspath(__file__)), '..'))
 import common
 
-GENERATED = ('unicode', 'tagregistry', 'tagsites')
+GENERATED = ('unicode', 'tagregistry', 'tagsites', 'tagstate')
 
 def main():
     chk = common.Check('C02')
@@ -48,6 +48,15 @@ def main():
     chk.evaluations += n
     if c:
         cex.append(c)
+    # sequences: controlled history in fresh worker processes (unit calls, several files per process, several files per command line)
+    seq_v, seq_stats, seq_lines, seq_outs, seq_e2e = P.sequence_stream(chk, R, workers=4 if chk.thorough else 3)
+    chk.coverage['sequences'] = seq_stats
+    if driver_ok and seq_lines:
+        chk.stream('tags-seq', seq_lines, seq_outs)
+    c, n = P.falsify_cli_sequences(chk, R, seq_e2e, 12 if chk.thorough else 4)
+    chk.evaluations += n
+    if c:
+        cex.append(c)
     replays, stats, lines, outs = P.taint_stream(chk, R, (2700 if chk.thorough else 500) * mult, sites)
     chk.coverage['taint'] = stats
     chk.note_cases({('tag', t) for t in stats['tags_seen']})
@@ -62,11 +71,18 @@ def main():
         bad_sites = [s for s in sites['safestr_sites'] if s['prov'] in ('fileDerived', 'unknown')]
     else:
         bad_sites = []
+    state = P.load_state()
+    if state is not None:
+        chk.coverage['state_inventory'] = {'functions': [{k: f[k] for k in ('key', 'kind', 'decorators', 'scopeDecls', 'mutableDefaults', 'writes', 'readsState')} for f in state['fns']],
+                                           'mutated_module_level_names': state['mutations']}
     # ---- report
     reported_keys = set()
     for v in replays:
         reported_keys.add(v['key'])
         chk.violation(f"{v['kind']}: {v.get('tag')} at {v.get('where')}", v, key=v['key'])
+    for v in seq_v:
+        reported_keys.add(v['key'])
+        chk.violation(f"{v['kind']}: {v.get('tag')} at {v.get('where')}", v, key=v['key'], **({'no_input': True} if v.get('no_input') else {}))
     for c in cex:
         chk.violation(c['kind'] + ': real code deviates from the property', c, key=c['kind'] + ':' + str(c.get('input', '')))
     # a site the inventory flags but the taint run did not reach with hostile text: no concrete input
@@ -89,11 +105,19 @@ def main():
              'below U+3000 (U+30000 thorough), both ends of every run of equal (isprintable, category) in the interpreter\'s tables, random code '
              'points and random mixed-class strings, all 256 single bytes + random bytes, ints; Tag.format / Checker.tag / safe_format / '
              'message_repr on random typed extras; end to end: PO/POT/MO catalogs with a hostile marker (newline, ESC[31m, U+009B, U+202E, U+200B, '
-             'DEL, CR, LS/PS/NEL, combined) in every free-text slot, each slot x {po,pot,mo} once plus random combinations; non-trivial = distinct '
+             'DEL, CR, LS/PS/NEL, combined) in every free-text slot, each slot x {po,pot,mo} once plus random combinations; sequences in fresh worker '
+             'processes: the same text as safestr / str / bytes / str()-able object in every ordered pair of types x entry points (unique text per '
+             'sequence), the message identification as tool text then as file text and reversed, specials in both orders, random 3-8 call '
+             'sequences; catalogs whose flag / msgid / msgctxt / header value / header key / stray line / format key EQUALS text the tool printed '
+             'earlier for the same file or for an earlier file of the same process (harvested from a run), both orders, and `i18nspector A B` '
+             'against `i18nspector A; i18nspector B`; non-trivial = distinct '
              'tag emitted / distinct code-point class exercised',
         trusted=['Lean 4.33 kernel', 'axioms: propext, Classical.choice, Quot.sound only',
                  'translators tagregistry2lean / unicode2lean (dumps of live objects) and tagsites2lean (ast walk + the provenance classifier whose '
                  'rules are listed in its docstring: literal, int, toolTable, regexGuarded, libraryMessage, unicodeName, formatOfEscaped)',
+                 'tagstate2lean (ast inventory of state on the output path; sees names, decorators, defaults, stores and mutating method calls in '
+                 'lib/tags.py, msgrepr.py, cli.py — not state kept inside other modules); history independence of the real code is otherwise '
+                 'test-level (sequence streams)',
                  'CPython repr(), str(int), str.format: modelled by hand from unicode_repr / bytes_repr / MarkupIterator, tied by the tags-escape and '
                  'tags-safe-format streams; str.format only for fields {} {N} {name} and the {{ }} escapes',
                  'lib/terminal.py (curses) is not modelled: colour strings are arbitrary parameters of the theorems; exercised by the colour falsifier '
@@ -102,8 +126,10 @@ def main():
                  'Spec.Tags.hostile (Cc, Cf, Zl, Zp, Cs) and Spec.Tags.Token are my reading of the property statement'],
         explanation='Proved for all inputs (any UnicodeDB satisfying Sound, discharged for the interpreter\'s tables by unicode_sound): escape_clean, '
                     'escape_clean_classes, escape_token, escape_int, format_grammar, colour_strip, line_clean, line_count, unknown_tag_refused, '
-                    'printed_tag_registered, safe_format_clean, message_repr_clean. Proved over regenerated tables: priority_pin, priority_monotone, '
-                    'priority_table_monotone, registry_letter, tag_sites_registered, is_safe_pin, sites_checked, safestr_sites_tool_text '
+                    'printed_tag_registered, safe_format_clean, message_repr_clean, format_calls_independent / format_calls_determine_run / '
+                    'history_independent / extra_token_independent (no line depends on earlier calls, no token on neighbouring extras). '
+                    'Proved over regenerated tables: priority_pin, priority_monotone, '
+                    'priority_table_monotone, registry_letter, tag_sites_registered, is_safe_pin, escaper_stateless, sites_checked, safestr_sites_tool_text '
                     f'over {nsites} safestr/safe_format sites (on the pinned tree one site, tags.safestr(key) in lib/check/msgformat/python.py, wrapped a '
                     'python-format mapping key: found by the inventory theorem and the taint stream, repaired by fix: d06c053). OUTSTANDING: none of the planned theorems; not proved: '
                     'a decoder round-trip for repr (the token grammar is proved instead), the classifier itself (trusted), terminal.py.')
